@@ -6,7 +6,8 @@ import json
 import os
 import sys
 
-sys.path[:0] = ["/verif/harness/pyshim", os.environ.get("VERIF_REPO", "/repo"), "/verif/harness"]
+_H = os.path.dirname(os.path.abspath(__file__))
+sys.path[:0] = [os.path.join(_H, "pyshim"), os.environ.get("VERIF_REPO", "/repo"), _H]
 import nsgenv
 import coordrun as CR
 from nsgenv import msg, ip
